@@ -33,7 +33,7 @@ def gen_case(rng: random.Random, tier):
     if rng.random() < 0.4:
         bytecode['endian'] = rng.choice(['big', 'little'])
     suffix = None
-    if rng.random() < 0.3 and nops > 0:
+    if rng.random() < (0.3 if nops > 0 else 0.6):
         sn = rng.choice([1, 2, 3, 4, 8])
         suffix = {'value': rng.randint(0, (1 << sn) - 1), 'size': sn}
         bytecode['suffix'] = suffix
@@ -63,6 +63,8 @@ def gen_case(rng: random.Random, tier):
         instr['operands'] = operands
     else:
         rev_args = rev_codes = False
+        if rng.random() < 0.4:
+            instr['operands'] = {'count': 0}       # the same instruction with an explicit empty operand section
     if not isa['operand_sets']:
         isa['operand_sets'] = {'unused': {'operand_values': {'r': {'type': 'register', 'register': ctx.regs[0],
                                                                     'bytecode': {'value': 0, 'size': 1}}}}}
